@@ -1,10 +1,10 @@
 package props
 
 import (
-	"go/token"
-	"os"
 	"fmt"
+	"go/token"
 	"go/types"
+	"os"
 	"sort"
 	"strings"
 
